@@ -183,6 +183,47 @@ def Tree.WF (t : Tree) : Prop :=
   (t.gdir = false → t.main.isNone = true ∧ t.recov.isNone = true ∧ t.adir = false ∧ t.bdir = false) ∧
   (t.adir = false → t.a.isNone = true) ∧ (t.bdir = false → t.b.isNone = true)
 
+/-! ### Explicit file names that differ only by a dotted tail (`runs/relax`, `runs/relax.v2`), side by side in one directory
+
+`PickleStorage` derives its files from the name it is given.  `replaceTail` is `Path.with_suffix(".pckl")`: the text
+after the last dot of the last component is REPLACED, so `relax.v2`, `relax.v1` and `relax` all become `relax.pckl` --
+one store.  `append` is `<name> + ".pckl"`: every name its own store.  The primary name is the one the live graph is
+saved under; the neighbour is used by other objects.  Physically the files of key `relax.v2.*` are the `main` columns,
+those of key `relax.*` the `recovery` columns of the `Tree`. -/
+
+inductive Name | primary | neighbour
+  deriving DecidableEq, Repr
+
+inductive NameMode | replaceTail | append
+  deriving DecidableEq, Repr
+
+def resolve : NameMode → Name → Store
+  | .append, .primary => .main
+  | .append, .neighbour => .recovery
+  | .replaceTail, _ => .recovery
+
+/-- one flat op under one of the two names -/
+def nstep (tc : TCfg) (m : NameMode) (w : TWorld) (name : Name) (op : Op) : TWorld × Res :=
+  match name with
+  | .primary =>
+    let r := apply1 tc w.tree (resolve m .primary) w.node op
+    (⟨r.1, r.2.1⟩, r.2.2)
+  | .neighbour =>
+    let r := apply1 tc w.tree (resolve m .neighbour) ⟨w.node.cls, 0⟩ op
+    (⟨r.1, if op.isCrash then ⟨w.node.cls, 0⟩ else w.node⟩, r.2.2)
+
+def nrun (tc : TCfg) (m : NameMode) (w : TWorld) : List (Name × Op) → TWorld
+  | [] => w
+  | (n, op) :: r => nrun tc m (nstep tc m w n op).1 r
+
+/-- the promise of one NAME: the ops given under that name -/
+def promiseN (n : Name) (p : Promise) : List (Name × Op) → Promise
+  | [] => p
+  | (n', op) :: r => promiseN n (if n' = n then p.step op else p) r
+
+/-- with `append` an op under a name is the tree op on that name's own store -/
+def nameOp (x : Name × Op) : TOp := .on (resolve .append x.1) x.2
+
 /-- which stores a tree op writes to -/
 def TOp.touches : TOp → Store → Bool
   | .on s' _, s => s' == s
